@@ -128,34 +128,11 @@ def run_arith(repo, rep, prop):
             rep.check(ok, prop + '.L.b', 'best_layout:Contextual:arguments', '%s:%d' % (blf.module.relpath, c[4]),
                       'contextual documents see (indent, column, page width, ribbon width)',
                       'best_layout evaluates contextual documents with %s' % kw, nontrivial=True)
-    # python_to_sdocs: ribbon_frac = min(1.0, ribbon_width / width)
-    pts = repo.func('prettyprinter', 'python_to_sdocs')
-    found = False
-    for c in ast.walk(pts.node):
-        if isinstance(c, ast.Call) and call_name(c) in ('layout_smart', 'layout_fast', 'best_layout'):
-            found = True
-            env = {}
-            for st in pts.node.body:
-                if isinstance(st, ast.Assign) and len(st.targets) == 1 and isinstance(st.targets[0], ast.Name):
-                    env[st.targets[0].id] = inline(st.value, env)
-            kw = {k.arg: inline(k.value, env) for k in c.keywords}
-            n += 1
-            rf = kw.get('ribbon_frac')
-            try:
-                ok = rf is not None and form(rf) == mk('min', [const(1.0), atom('(ribbon_width / width)')])
-            except NotLinear:
-                ok = False
-            rep.check(ok, prop + '.L.b', 'python_to_sdocs:ribbon-frac', '%s:%d' % (pts.module.relpath, c.lineno),
-                      'ribbon_frac = min(1.0, ribbon_width / width)',
-                      'python_to_sdocs passes ribbon_frac=%s; the ribbon must be ribbon_width/width clamped to 1'
-                      % (src(rf) if rf is not None else 'nothing (layout default 0.9 applies)'), nontrivial=True)
-            n += 1
-            wd = kw.get('width')
-            rep.check(wd is not None and src(wd) == 'width', prop + '.L.b', 'python_to_sdocs:width',
-                      '%s:%d' % (pts.module.relpath, c.lineno), 'page width forwarded',
-                      'python_to_sdocs passes width=%s' % (src(wd) if wd is not None else 'nothing (default 79)'))
-    if not found:
-        raise AnalysisError('python_to_sdocs no longer calls the layout')
+    # python_to_sdocs hands the layout the page width it was given and ribbon_frac = min(1.0, ribbon_width / width): read off the
+    # interpreted entry point (ribbon narrower and wider than the page)
+    from . import entrymodel
+    n += entrymodel.report(repo, rep, prop + '.L.b', lambda k: k.startswith('layout:') or k.endswith(':single-path'),
+                           'the width / ribbon the caller asked for does not reach the layout')
     rep.floor(prop + '.L.b', n, 6)
 
     # ---------------------------------------------------------------- L.a available width
